@@ -711,6 +711,14 @@ struct Gen {
         int n = r.range(0, 4);
         for (int i = 0; i < n; ++i) {
             if (actions && r.coin(1, 4)) actionBlock(out);
+            else if (!first && orders && rich2 && r.coin(1, 8)) {
+                // wells created in a later report step under that step's own COMPORD (before or after the WELSPECS)
+                const bool before = r.coin();
+                if (before) out.push_back(compord());
+                out.push_back(welspecs());
+                if (!before) out.push_back(compord());
+                if (r.coin(2, 3)) out.push_back(compdat());
+            }
             else out.push_back(ordinary());
         }
     }
